@@ -4,8 +4,9 @@ use arbitrary::Unstructured;
 use libfuzzer_sys::fuzz_target;
 include!("common.rs");
 
-const TOKENS: [&str; 30] = [
+const TOKENS: [&str; 34] = [
     "a", "log", "é", " ", "-", ".", "_", "$", "{", "}", "$ENV", "$ENV{", "ENV{", "$$", "/", "$ENV{LvA}", "$ENV{LvAB}", "$ENV{_lvx}", "$ENV{lv.1}", "$ENV{élv1}", "$ENV{LvZ9}",
+    "$ENV{Lv\u{663}x}", "$ENV{Lv\u{b2}}", "$ENV{\u{2167}Lv}", "$ENV{\u{663}}",
     "$ENV{LvNEVERSET}", "$ENV{}", "$ENV{.a}", "$ENV{Lv-A}", "$ENV{Lv A}", "$ENV{Lv$A}", "$ENV{LvA", "LvA}", "}}",
 ];
 const VALUES: [&str; 10] = ["val", "", "{", "}", "ENV{LvAB}", "LvAB}", "sub/dir", "ü", "x y", "ENV{LvA}{"];
@@ -13,7 +14,7 @@ const VALUES: [&str; 10] = ["val", "", "{", "}", "ENV{LvAB}", "LvAB}", "sub/dir"
 fuzz_target!(|data: &[u8]| {
     prepare();
     let mut u = Unstructured::new(data);
-    let vars: Vec<Option<String>> = (0..6).map(|_| if u.ratio(2, 3).unwrap_or(false) { Some(u.choose(&VALUES).unwrap_or(&"val").to_string()) } else { None }).collect();
+    let vars: Vec<Option<String>> = (0..lv::c19::NAMES.len()).map(|_| if u.ratio(2, 3).unwrap_or(false) { Some(u.choose(&VALUES).unwrap_or(&"val").to_string()) } else { None }).collect();
     let n = u.int_in_range(0..=12).unwrap_or(0);
     let path: String = (0..n).map(|_| *u.choose(&TOKENS).unwrap_or(&"a")).collect();
     let case = lv::c19::Case { path, vars };
